@@ -90,12 +90,14 @@ Theorem C18_check_i64toa_sound : forall v mask o0 e0 o1 e1 o2 e2 op ep ref,
 Proof. exact check_1803_sound. Qed.
 Print Assumptions C18_check_i64toa_sound.
 
-(* 1804 f64toa: every text is a JSON number lexeme whose exact decimal value rounds (dec2f64) to the input bits *)
+(* 1804 f64toa: every text is a JSON number lexeme whose exact decimal value d rounds to the input bits — according to the decidable
+   SPECIFICATION of round-to-nearest-even (f64_rounds_to: d lies between the midpoints to the neighbouring doubles, a tie goes to the
+   even pattern) and according to the algorithm dec2f64 *)
 Theorem C18_check_f64toa_sound : forall bits mask o0 e0 k0 b0 o1 e1 k1 b1 o2 e2 k2 b2 op ep kp bp,
   check_1804 [FZ bits; FZ mask; FB o0; FZ e0; FZ k0; FZ b0; FB o1; FZ e1; FZ k1; FZ b1; FB o2; FZ e2; FZ k2; FZ b2; FB op; FZ ep; FZ kp; FZ bp] = VOk ->
   f64_is_finite bits = true ->
   forall e o k b, In (e, o, k, b) ((ep, op, kp, bp) :: sel mask [(e0, o0, k0, b0); (e1, o1, k1, b1); (e2, o2, k2, b2)]) ->
-  e = 0 /\ num_okb o = true /\ lex2f64 o = Some bits.
+  e = 0 /\ exists d, lex_decimal o = Some d /\ dec2f64 d = bits /\ f64_rounds_to d bits = true.
 Proof. exact check_1804_sound. Qed.
 Print Assumptions C18_check_f64toa_sound.
 
@@ -125,6 +127,11 @@ Example C18_examples :
   check_1803 [FZ (-10); FZ 7; FB [45; 49; 48]; FZ 0; FB [45; 49; 48]; FZ 0; FB [45; 49; 48]; FZ 0; FB [45; 49; 48]; FZ 0; FB [45; 49; 48]] = VOk /\
   check_1803 [FZ (-10); FZ 7; FB [45; 49; 48]; FZ 0; FB [45; 49; 49]; FZ 0; FB [45; 49; 48]; FZ 0; FB [45; 49; 48]; FZ 0; FB [45; 49; 48]]
     = VBad 1 [FB [45; 49; 48]] /\
+  (* f64toa checker on 0.1 = 0x3FB999999999999A: the text "0.1" from every flavour is accepted; "0.2" from one flavour is rejected *)
+  (let b := 4591870180066957722 in let t := [48; 46; 49] in
+   check_1804 [FZ b; FZ 7; FB t; FZ 0; FZ 1; FZ b; FB t; FZ 0; FZ 1; FZ b; FB t; FZ 0; FZ 1; FZ b; FB t; FZ 0; FZ 1; FZ b] = VOk /\
+   check_1804 [FZ b; FZ 7; FB t; FZ 0; FZ 1; FZ b; FB [48; 46; 50]; FZ 0; FZ 1; FZ 4596373779694328218; FB t; FZ 0; FZ 1; FZ b; FB t; FZ 0; FZ 1; FZ b]
+     = VBad 1 [FZ b]) /\
   (* skip checker: i32 value + one byte of tail; all agree -> VOk; the sse slot consumed 5 -> VBad 2; swallowed native error on a truncated value -> finding 1804 *)
   check_1802 [FZ 8; FB [0; 0; 0; 7; 9]; FZ 7; FZ 0; FZ 4; FZ 0; FZ 4; FZ 0; FZ 4; FZ 0; FZ 4] = VOk /\
   check_1802 [FZ 8; FB [0; 0; 0; 7; 9]; FZ 7; FZ 0; FZ 4; FZ 0; FZ 4; FZ 0; FZ 4; FZ 0; FZ 5] = VBad 4 [] /\
